@@ -204,6 +204,12 @@ type partial struct {
 
 func (r *Run) merge(p *partial) {
 	for k, v := range p.Counters {
+		if strings.HasPrefix(k, "max_") {
+			if v > r.Counters[k] {
+				r.Counters[k] = v
+			}
+			continue
+		}
 		r.Counters[k] += v
 	}
 	for k, v := range p.Outcomes {
